@@ -26,6 +26,7 @@ structure Chk where
   lastRec : Nat := 0
   corrupted : Bool := false
   recs : Nat := 0                  -- `Recs`: number of the chunk's records the hull accounts for (0 = unknown)
+  loaded : Bool := false           -- read from the snapshot file and not yet compared with the chunk / written (7ea0278)
 deriving Inhabited
 
 structure St where
@@ -48,7 +49,10 @@ def onWrite (s : St) (first last : Nat) (cid : Nat) (mn mx : Int) : St × R :=
     | none => ([({ id := cid, minTs := mn, maxTs := mx } : Chk)], true)
     | some l =>
       if l.id != cid then (s.chunks ++ [({ id := cid, minTs := mn, maxTs := mx } : Chk)], true)
-      else (updLast s.chunks (fun c => { c with minTs := min c.minTs mn, maxTs := max c.maxTs mx }), false)
+      else
+        -- a snapshot entry that does not account for the records in front of the batch: as a chunk notified from the middle
+        let middle := Generated.C02.staleDropOnlyForSnapshotEntries && l.loaded && first > l.recs
+        (updLast s.chunks (fun c => { c with minTs := min c.minTs mn, maxTs := max c.maxTs mx, loaded := false }), middle)
   let chunks := updLast chunks (fun c => { c with recs := last + 1 })
   let s := { s with chunks := chunks }
   match chunks.getLast? with
